@@ -396,7 +396,9 @@ VarUnits(da, base, p, rd, r) ==
      IF (p = "all" /\ da[i] = rd) \/ (p # "all" /\ PatIdx(p) = i) THEN <<da[i], base[i][2] + r>> ELSE base[i]]
 
 \* ---------------------------------------------------------------- applying a signature to units
-DimOf(d) == CASE d = "L" -> <<1, 0>> [] d = "T" -> <<0, 1>> [] d = "iL" -> <<-1, 0>> [] d = "iT" -> <<0, -1>>
+\* "Th" = temperature (offset-unit family K, degC, degF, R).  No case mixes temperature with length, so its exponent
+\* is carried in the first component of the vector (the harness projects it there)
+DimOf(d) == CASE d = "L" -> <<1, 0>> [] d = "T" -> <<0, 1>> [] d = "iL" -> <<-1, 0>> [] d = "iT" -> <<0, -1>> [] d = "Th" -> <<1, 0>>
 DegAt(deg, i, n) == IF i <= n THEN deg[i] ELSE 0
 \* doubled exponent vector <<2 eL, 2 eT>> of  prod_i u_i^(deg_i/2)
 ExpDims(deg, us) ==
@@ -421,7 +423,9 @@ SigCount(c, nouts) ==
 
 \* ---------------------------------------------------------------- property predicates
 Unitless(o) == o.kind = "bare" \/ (o.kind = "unyt" /\ o.dims = <<0, 0>> /\ ~o.odd)
-NotCompared(o) == o.kind \in {"text", "other"}
+\* "rawbuf": a plain ndarray the CALLER supplied as out= - it cannot carry a unit, nothing is demanded of it (the
+\* returned object is still judged in full)
+NotCompared(o) == o.kind \in {"text", "other", "rawbuf"}
 
 \* C07_Cov, one output: same kind of object, commensurable units, same physical numbers
 NeedExact(c, ob) == ob.dk \in {"b", "i", "u"} \/ (c.exact /\ ~c.real)
@@ -471,9 +475,10 @@ OutRunOK(c, run, oc) ==
   \/ run.k # "ok" \/ ~IsOutT(c.t) \/ Len(run.outs) < 2
   \/ LET a == run.outs[1]
          b == run.outs[Len(run.outs)] IN
-     /\ a.kind = b.kind
-     /\ (a.kind = "unyt" => (a.dims = b.dims /\ a.odd = b.odd))
-     /\ oc.shp /\ (IF c.real THEN oc.tol ELSE oc.ex)
+     \/ b.kind = "rawbuf"
+     \/ /\ a.kind = b.kind
+        /\ (a.kind = "unyt" => (a.dims = b.dims /\ a.odd = b.odd))
+        /\ oc.shp /\ (IF c.real THEN oc.tol ELSE oc.ex)
 OutFails(c, o) == (IF OutRunOK(c, o.b, o.ocb) THEN {} ELSE {1}) \cup (IF OutRunOK(c, o.v, o.ocv) THEN {} ELSE {2})
 C07_Out(c, o) == OutFails(c, o) = {}
 
@@ -500,5 +505,6 @@ TRunOK(c, m, run) ==
   \/ /\ m.k = "ok" /\ run.k = "ok"
      /\ Len(run.outs) = Len(m.outs) + (IF IsOutT(c.t) THEN 1 ELSE 0)
      /\ \A j \in DOMAIN run.outs :
-          IF j <= Len(m.outs) THEN TOutOK(m.outs[j], run.outs[j], c.real) ELSE TOutOK(m.outs[1], run.outs[j], c.real)
+          IF j <= Len(m.outs) THEN TOutOK(m.outs[j], run.outs[j], c.real)
+          ELSE run.outs[j].kind = "rawbuf" \/ TOutOK(m.outs[1], run.outs[j], c.real)
 =============================================================================
